@@ -38,7 +38,21 @@ def cases(seed, tier):
     for i in range(n_prog):
         prng = random.Random(rng.getrandbits(64))
         if i % 3 == 0:
+            # (half of the trees with fail / succeed commands: a command
+            # processed while the tree is paused ends the parent during the
+            # nested resume)
             P = gdirect.gen_tree(prng, depth=1, p_async=0.5)
+            if i % 6 == 3:
+                plain = [T for T in P['tasks'] if not T.get('workflow')]
+                if plain:
+                    T = prng.choice(plain)
+                    T['async'] = True
+                    T['edges'].append({
+                        'clause': prng.choice(['on-complete', 'on-success']),
+                        'to': prng.choice(['fail', 'fail', 'succeed']),
+                        'guard': None, 'form': 'list'})
+                    P['features'] = sorted(set(P['features']) |
+                                           {'command', 'cmd-fail'})
         elif i % 5 == 2:
             # workflows that are ended by a command or by a failing
             # expression while parallel branches are still running: their
@@ -217,6 +231,13 @@ def run_case(case):
         bounds = sorted(brng.sample(range(1, base.steps + 8),
                                     min(nops, base.steps + 7)))
         kinds = [brng.choice(OPS) for _ in bounds]
+        if 'command' in (P.get('features') or []) and \
+                P.get('children') and k % 2 == 0:
+            # a tree whose parent carries a fail / succeed command: pause it
+            # at some boundary (results keep arriving, the command is
+            # processed on resume), resume when everything has drained
+            bounds = bounds[:1]
+            kinds = ['pause']
         log = []
         orng = random.Random(brng.getrandbits(32))
         plan = [{'at': b, 'op': make_op(kd, orng, log)}
